@@ -430,6 +430,77 @@ func runC08(t *testing.T, spec *hutil.Spec, out *hutil.Out) {
 	}
 }
 
+// C10 (ids): the ids attached to the items delivered to 2-3 concurrently acquiring consumers are
+// pairwise distinct in every schedule. The cells are provider runs as in C08; only the IDS oracle
+// decides here (every other oracle of these runs belongs to C08).
+func runC10ids(t *testing.T, spec *hutil.Spec, out *hutil.Out) {
+	rn := newRunner(t, out)
+	rn.e.StopOnViol = false
+	var all []C08Cell
+	for _, k := range kinds() {
+		if k.Name == "json" {
+			continue // the generic json provider attaches no ids
+		}
+		th := spec.Thorough()
+		b := func(quick, thorough int) int {
+			if th {
+				return thorough
+			}
+			return quick
+		}
+		all = append(all,
+			C08Cell{Kind: k.Name, Limit: 2, Entries: 1, Consumers: 2, Bound: 2},
+			C08Cell{Kind: k.Name, Limit: 2, Entries: 2, Consumers: 2, Bound: b(1, 2)},
+			C08Cell{Kind: k.Name, Limit: 3, Entries: 2, Consumers: 2, Bound: b(1, 2)},
+			C08Cell{Kind: k.Name, Limit: 3, Entries: 2, Consumers: 3, Bound: b(1, 2)},
+			C08Cell{Kind: k.Name, Passes: 2, Entries: 2, Consumers: 2, Bound: b(1, 2)})
+		if th {
+			all = append(all,
+				C08Cell{Kind: k.Name, Limit: 4, Entries: 1, Consumers: 2, Bound: 2},
+				C08Cell{Kind: k.Name, Limit: 4, Entries: 2, Consumers: 3, Bound: 1})
+		}
+	}
+	for ci, c := range all {
+		if !spec.Mine(ci) || (spec.Only != "" && !strings.Contains(c.Name(), spec.Only)) {
+			continue
+		}
+		if out.OverBudget() {
+			return
+		}
+		if !spec.Thorough() && c.Bound > 1 && strings.HasSuffix(c.Kind, "/scenario") {
+			c.Bound = 1
+		}
+		out.Progress(c.Name())
+		r := &c08run{cell: c, k: kindByName(c.Kind)}
+		var idv *vs.Result
+		rn.e.OnExec = func(res *vs.Result) {
+			if r.drv != nil {
+				out.Outcome(c.Name(), fmt.Sprintf("%v", r.drv.IDs))
+			}
+			if res.Err != nil && idv == nil && classify(res.Err) == "IDS" {
+				idv = res
+			}
+		}
+		v, complete := rn.explore(c.Bound, r.scenario)
+		rn.e.OnExec = nil
+		out.Cells++
+		if rn.e.HarnessErr {
+			out.HarnessErr = c.Name() + ": " + v.Err.Error()
+			return
+		}
+		if !complete {
+			out.Cap("cell %s: %s", c.Name(), rn.e.CapHit)
+		}
+		if idv != nil {
+			out.Violate("C10|IDS|"+c.Kind, c.Name()+"\n"+idv.Err.Error()+fmt.Sprintf("\nchoices=%v", head(idv.Choices, 60)),
+				map[string]any{"mode": "C10ids", "ids_cell": true, "cell": c, "choices": idv.Choices})
+		}
+		if ci%17 == 0 {
+			out.Sample(map[string]any{"cell": c.Name(), "ids_of_last_execution": fmt.Sprint(r.drv.IDs)})
+		}
+	}
+}
+
 // ---------------------------------------------------------------------------
 // C14: preload on/off differential + chosencases model
 
@@ -641,7 +712,11 @@ func c14files(format string, thorough bool, fn func(File)) {
 
 func runC14(t *testing.T, spec *hutil.Spec, out *hutil.Out) {
 	rn := newRunner(t, out)
-	chosens := [][]string{nil, {"t"}, {"t", "two words"}, {"nomatch"}}
+	// the empty tag is a tag as well: [""] lists exactly the untagged entries
+	chosens := [][]string{nil, {"t"}, {"t", "two words"}, {"nomatch"}, {""}}
+	if spec.Thorough() {
+		chosens = append(chosens, []string{"", "t"})
+	}
 	idx := 0
 	for _, format := range []string{"uri", "uripost", "raw", "jsonline"} {
 		var mine []File
@@ -685,7 +760,7 @@ func runC14(t *testing.T, spec *hutil.Spec, out *hutil.Out) {
 				}
 			}
 			if fi%499 == 0 {
-				out.Sample(map[string]any{"format": format, "file_bytes": string(render(f.Format, f.Items, f.Layout)), "cells_per_file": "limit{0..3} x passes{0..2} x chosencases{unset,[t],[t,two words],[nomatch]} x preload{off,on}"})
+				out.Sample(map[string]any{"format": format, "file_bytes": string(render(f.Format, f.Items, f.Layout)), "cells_per_file": "limit{0..3} x passes{0..2} x chosencases{unset,[t],[t,two words],[nomatch],[\"\"]} x preload{off,on}"})
 			}
 		}
 	}
@@ -701,6 +776,8 @@ func runOther(t *testing.T, spec *hutil.Spec, out *hutil.Out) {
 		runC14(t, spec, out)
 	case "C13":
 		runC13(t, spec, out)
+	case "C10":
+		runC10ids(t, spec, out)
 	default:
 		out.HarnessErr = "unknown property " + spec.Property
 	}
@@ -708,7 +785,7 @@ func runOther(t *testing.T, spec *hutil.Spec, out *hutil.Out) {
 
 func replayOther(t *testing.T, rn *runner, out *hutil.Out, rp replayT) {
 	switch rp.Mode {
-	case "C08":
+	case "C08", "C10ids":
 		var w struct {
 			Cell    C08Cell `json:"cell"`
 			Choices []int   `json:"choices"`
@@ -723,7 +800,13 @@ func replayOther(t *testing.T, rn *runner, out *hutil.Out, rp replayT) {
 			fmt.Printf("delivered=%v by consumer=%v runErr=%v runDone=%v falses=%d\n", r.drv.Items, r.drv.ByConsumer, r.drv.RunErr, r.drv.RunDone, r.drv.Falses)
 		}
 		if res.Err != nil {
-			out.Violate("C08|replay", res.Err.Error(), rp.Raw)
+			if rp.Mode == "C10ids" {
+				if classify(res.Err) == "IDS" {
+					out.Violate("C10|replay", res.Err.Error(), rp.Raw)
+				}
+			} else {
+				out.Violate("C08|replay", res.Err.Error(), rp.Raw)
+			}
 		}
 	case "C14":
 		var w struct {
